@@ -99,3 +99,6 @@ package ledger
 //@   requires s != nil
 //@   ensures err == nil && lib("strings.ToUpper", s.TargetType) == lib("strings.ToUpper", "TRANSACTION") ==> typeis(s.TargetID, "*big.Int")
 //@   property C13
+
+// package-level constant in all but name
+//@ assume Zero != nil && val(Zero) == 0
